@@ -28,6 +28,9 @@ def braid_suite(ctx, vh):
     # must leave the committed state untouched (or the commit succeeds completely)
     out += ctx.run_engine(vh, "braid", cases, opts={"twin": 1, "index": 1, "faults": 1, "faults_every": 4}, tag="braid")
     out += ctx.run_engine(vh, "braid", m0.replays, opts={"twin": 1, "index": 1, "merge_tag": 0}, tag="braid-m0")
+    # priority extremes: the spec's priorities 0 < 1 concretised as u32::MAX-1 < u32::MAX (next to Finalize)
+    pm = [c for c in n4.replays if any(x["kind"] == "fin" for x in c["cmds"])]
+    out += ctx.run_engine(vh, "braid", verif.sample(ctx.rng, pm, 6000), opts={"twin": 1, "prio_max": 1}, tag="braid-priomax")
     # STRETCH: chains of up to 14 commands cross MIN_SKIP_GAP (10) so skip lists are built
     sub = verif.sample(ctx.rng, n4.replays, 700 if not ctx.thorough else 3000)
     out += ctx.run_engine(vh, "braid", sub, opts={"twin": 1, "index": 1, "stretch": 14}, tag="braid-stretch")
